@@ -45,7 +45,7 @@ TABLE = [
     # ---- scan path
     (r"CompiledDfa::find_from$", "assert:Overflow", 3, AR, W_OFF),
     (r"CompiledDfa::find_from$", "call:index", 5, ID, W_SID + "; the start state 0 exists because every automaton has at least one state"),
-    (r"CompiledDfa::find_from::\{closure#0\}$", "call:unwrap", 2, TS, "runs only when the terminal id is Some; end and type are written together as Some (C05.a/C05.d) and the start is set before any candidate (C07.a)"),
+    (r"CompiledDfa::find_from$", "call:unwrap", 2, TS, "runs only when the terminal id is Some; end and type are written together as Some (C05.a/C05.d) and the start is set before any candidate (C07.a)"),
     (r"CompiledDfa::pattern$", "call:index", 1, EL, "patterns is a one-element vector; called with 0 (dot export) or inside the message of a failing debug_assert"),
     (r"CompiledDfa::priority_of$", "call:unwrap", 1, EL, "the argument is an accepting label of this automaton; labels and terminal_ids are filled from the same pattern list and the minimizer copies labels (C02.d, C03.g)"),
     (r"FindMatchesImpl::<'h>::advance_beyond_match$", "assert:Overflow", 1, AR, W_OFF),
@@ -53,7 +53,7 @@ TABLE = [
     (r"FindMatchesImpl::<'h>::advance_to$", "assert:Overflow", 4, AR, W_OFF),
     (r"FindMatchesImpl::<'h>::merge_line_offsets$", "call:Vec::insert", 1, EL, "insert position is the Err(i) of a binary search of the same vector, i <= len (C09.b)"),
     (r"FindMatchesImpl::<'h>::merge_line_offsets$", "debug_assert", 1, DBG, "line_offsets stays strictly ascending: search-directed insertion, no duplicates (C09.b)"),
-    (r"FindMatchesImpl::<'h>::merge_line_offsets::\{closure#0\}$", "assert:BoundsCheck", 2, EL, "windows(2) yields slices of length 2"),
+    (r"FindMatchesImpl::<'h>::merge_line_offsets$", "assert:BoundsCheck", 2, EL, "windows(2) yields slices of length 2"),
     (r"FindMatchesImpl::<'h>::next_match$", "assert:Overflow", 1, AR, W_OFF),
     (r"FindMatchesImpl::<'h>::next_match$", "call:str-index", 1, PRE, W_SLICE),
     (r"FindMatchesImpl::<'h>::offset$", "assert:Overflow", 1, AR, W_OFF),
@@ -86,8 +86,8 @@ TABLE = [
     (r"Minimizer::merge_transitions_of_state$", "call:unwrap", 2, EL, "get_mut(pos) with pos returned by position() on the same vector"),
     (r"Minimizer::merge_transitions_of_state$", "call:Vec::remove", 1, EL, "pos returned by position() on the same vector"),
     (r"Minimizer::merge_transitions_of_state$", "call:index", 1, EL, "rep_pos < pos (the representative is the smallest id of its group and the vector is ordered by id), so the removal does not shift it"),
-    (r"Minimizer::minimize::\{closure#0\}$", "call:unwrap", 3, EL, "get_mut of a key that entry(..).or_default() inserted in the statement before"),
-    (r"Minimizer::renumber_states_in_transitions::\{closure#0\}$", "call:panicking::panic_fmt", 1, EL, "every state is in some group: the partition covers all states (C03.a/b)"),
+    (r"Minimizer::minimize$", "call:unwrap", 3, EL, "get_mut of a key that entry(..).or_default() inserted in the statement before"),
+    (r"Minimizer::renumber_states_in_transitions$", "call:panicking::panic_fmt", 1, EL, "every state is in some group: the partition covers all states (C03.a/b)"),
     (r"Minimizer::update_transitions$", "call:index", 1, ID, "renumbered ids are group indices < partition.len() == states.len()"),
     (r"Minimizer::update_transitions$", "call:index", 1, ID, "renumbered ids are group indices < partition.len() == states.len()"),
     (r"MultiPatternNfa::get_match_transitions$", "call:panicking::panic_fmt", 3, EL, "states of closures were created by try_from_patterns and belong to one of the NFAs"),
@@ -113,7 +113,7 @@ TABLE = [
     (r"scanner_builder::ScannerBuilder::build$", "call:unwrap", 1, LOCK, "SCANNER_CACHE.write(): poisoned only by a panic under the guard, i.e. iff this inventory is not clean"),
     (r"scanner_builder::SimpleScannerBuilder::build$", "call:unwrap", 1, LOCK, "SCANNER_CACHE.write(): poisoned only by a panic under the guard, i.e. iff this inventory is not clean"),
     (r"scanner_mode::ScannerMode::new$", "debug_assert", 1, PRE, "transitions sorted by token type: precondition stated by the property's quantifier and the documentation"),
-    (r"scanner_mode::ScannerMode::new::\{closure#1\}$", "assert:BoundsCheck", 2, EL, "windows(2) yields slices of length 2"),
+    (r"scanner_mode::ScannerMode::new$", "assert:BoundsCheck", 2, EL, "windows(2) yields slices of length 2"),
     # ---- dot export
     (r"ScannerImpl::generate_compiled_automata_as_dot$", "call:unwrap", 1, PRE, "target_folder.to_str(): non-UTF-8 paths only (C18.d lists it)"),
     (r"dot::render_compiled_dfa$", "call:index", 2, ID, "end_states[id] with id in 0..states.len() and end_states.len() == states.len() (every constructor builds both with the same length)"),
@@ -157,8 +157,26 @@ def sites(fn):
     return out
 
 
+def owner_names(F, fn):
+    """Names under which the panic sites of `fn` are accounted: a closure is accounted at the function it is written in
+    (moving an expression into or out of a closure does not change what has to be justified); a helper the rules do not
+    know by name (introduced later) is accounted at the known functions that call it."""
+    from .common import owners
+    from . import symex as S
+    name = re.sub(r"(::\{closure#\d+\})+$", "", fn.name)
+    base = fn
+    if name != fn.name:
+        cand = [f for f in F.fns.values() if f.name == name]
+        if cand:
+            base = cand[0]
+    if S.is_unknown_helper(base):
+        os_ = sorted({re.sub(r"(::\{closure#\d+\})+$", "", o.name) for o, _ in owners(F, base)})
+        return os_          # [] for a helper nobody calls
+    return [name]
+
+
 def inventory(F):
-    """{group: {fn name: Counter(kind)}} for user-written functions reachable from the roots."""
+    """{group: {owner fn name: Counter(kind)}} for user-written functions reachable from the roots."""
     inv = {}
     for group, rx in ROOTS.items():
         roots = [f for f in F.fns.values() if re.search(rx, f.name) and f.kind != "Closure"]
@@ -168,13 +186,14 @@ def inventory(F):
             fn = F.fns[k]
             if fn.j.get("exp"):
                 continue  # compiler/macro generated bodies (derives, impl_id!): their sites are counted at the caller
-            c = Counter()
-            locs = {}
-            for kind, bb, t in sites(fn):
-                c[kind] += 1
-                locs.setdefault(kind, []).append(fn.loc(bb))
-            if c:
-                g[fn.name] = (c, locs, fn)
+            st = sites(fn)
+            if not st:
+                continue
+            for owner in owner_names(F, fn):
+                c, locs, _ = g.setdefault(owner, (Counter(), {}, fn))
+                for kind, bb, t in st:
+                    c[kind] += 1
+                    locs.setdefault(kind, []).append(fn.loc(bb))
         inv[group] = (g, len(roots), len(reach))
     return inv
 
